@@ -806,6 +806,58 @@ fn run_mcast() -> (String, String, String, String) {
     ("udp mcast".into(), imp, if ok { "ok".into() } else { format!("FAIL {}", detail) }, "mcast,reply,from_listener,max,zero".into())
 }
 
+/// IPv6 link-local: a receive_broadcasts listener and a plain listener, both on the machine's link-local
+/// address (which is only complete with its scope id = interface index).  The sender is reported with its
+/// full address and a reply through the reported endpoint reaches it.  Emitted as a `#` case where the
+/// machine has no link-local address.
+fn run_linklocal() -> (String, String, String, String) {
+    use message_io::adapters::udp::UdpListenConfig;
+    use message_io::network::TransportListen;
+    let setup_failed = |why: &str| ("#linklocal-setup-failed".to_string(), format!("setup-failed: {}", why), "ok".to_string(), "linklocal,setup-failed".to_string());
+    let table = std::fs::read_to_string("/proc/net/if_inet6").unwrap_or_default();
+    let found = table.lines().find_map(|line| {
+        let f: Vec<&str> = line.split_whitespace().collect();
+        if f.len() < 6 || f[3] != "20" {
+            return None
+        }
+        Some((std::net::Ipv6Addr::from(u128::from_str_radix(f[0], 16).ok()?), u32::from_str_radix(f[1], 16).ok()?))
+    });
+    let Some((ip, index)) = found else { return setup_failed("no link-local address") };
+    let any = SocketAddr::V6(std::net::SocketAddrV6::new(ip, 0, 0, index));
+    let (ctl, mut proc_) = network::split();
+    let cfg = UdpListenConfig::default().with_receive_broadcasts();
+    let Ok((bid, baddr)) = ctl.listen_with(TransportListen::Udp(cfg), any) else { return setup_failed("listen (receive_broadcasts)") };
+    let Ok((aid, aaddr)) = ctl.listen(Transport::Udp, any) else { return setup_failed("listen") };
+    let mut pump = |proc_: &mut NetworkProcessor, ms: u64| -> Vec<(Endpoint, Vec<u8>)> {
+        let mut evs = vec![];
+        proc_.process_poll_events_until_timeout(Duration::from_millis(ms), |ev| {
+            if let NetEvent::Message(ep, data) = ev {
+                evs.push((ep, data.to_vec()));
+            }
+        });
+        evs
+    };
+    // (the receive_broadcasts listener reports the wildcard address it is bound to: the target is the
+    // link-local address with its port)
+    let target = SocketAddr::V6(std::net::SocketAddrV6::new(ip, baddr.port(), 0, index));
+    let st = ctl.send(Endpoint::from_listener(aid, target), b"ping");
+    let evs = pump(&mut proc_, 150);
+    let Some((ep, _)) = evs.iter().find(|(ep, d)| ep.resource_id() == bid && d == b"ping").cloned() else {
+        return if st == SendStatus::Sent { ("udp linklocal".into(), "ping=0 pong=0".into(), "FAIL the datagram sent to the receive_broadcasts listener on the link-local address was not delivered".into(), "linklocal".into()) } else { setup_failed("send on the link-local address") }
+    };
+    let addr_ok = ep.addr() == aaddr;
+    let st2 = ctl.send(ep, b"pong");
+    let evs = pump(&mut proc_, 150);
+    let pong = evs.iter().any(|(e, d)| e.resource_id() == aid && d == b"pong");
+    let ok = addr_ok && pong && st2 == SendStatus::Sent;
+    (
+        "udp linklocal".into(),
+        format!("ping=1 pong={}", (pong && addr_ok) as u8),
+        if ok { "ok".into() } else { format!("FAIL the sender {} was reported as {}; the reply through the reported endpoint: {:?}, delivered: {}", aaddr, ep.addr(), st2, pong) },
+        "linklocal,ipv6,reply".into(),
+    )
+}
+
 fn main() {
     quiet_panics();
     let mode = arg(1);
@@ -817,6 +869,10 @@ fn main() {
             let n = arg_u64(3, 40);
             {
                 let (c, i, o, t) = run_mcast();
+                emit(&mut out, &c, &i, &o, &t);
+            }
+            {
+                let (c, i, o, t) = run_linklocal();
                 emit(&mut out, &c, &i, &o, &t);
             }
             for c in CORPUS {
@@ -864,6 +920,10 @@ fn main() {
                 let toks: Vec<&str> = line.trim().split(' ').collect();
                 let (imp, oracle, tags) = match toks.as_slice() {
                     ["udp", "e2e", rest @ ..] => run_case(rest),
+                    ["udp", "linklocal"] => {
+                        let (_, i, o, t) = run_linklocal();
+                        (i, o, t)
+                    }
                     ["udp", "mcast"] => {
                         let (_, i, o, t) = run_mcast();
                         (i, o, t)
